@@ -2264,6 +2264,52 @@ def _stores_config_value(corpus: Corpus, f: FunctionInfo, call: ast.Call, depth:
     return False
 
 
+def _global_only_fact(corpus: Corpus, f: FunctionInfo, t: ast.expr, pol: bool, depth: int = 1) -> bool | None:
+    """True: (t, pol) implies the field is NOT global-only; False: implies it is; None: unrelated.
+    The flag is read as metadata key "global_only", directly or in a package predicate that returns it (or its negation)."""
+    if any(isinstance(x, ast.Constant) and x.value == "global_only" for x in ast.walk(t)) or any(isinstance(x, ast.Attribute) and x.attr == "global_only" for x in ast.walk(t)):
+        if isinstance(t, ast.Compare) and any(isinstance(o, (ast.IsNot, ast.NotEq)) for o in t.ops) and any(isinstance(x, ast.Constant) and x.value is True for x in ast.walk(t)):
+            return pol
+        if isinstance(t, ast.Compare) and any(isinstance(x, ast.Constant) and x.value in (False, None) for x in t.comparators) and any(isinstance(o, (ast.Is, ast.Eq)) for o in t.ops):
+            return pol
+        return not pol
+    if isinstance(t, ast.Call) and depth > 0:
+        for h in _package_helpers(corpus, f, t):
+            rets = [r for r in walk_local(h.node) if isinstance(r, ast.Return) and r.value is not None]
+            if len(rets) == 1:
+                for t2, p2 in facts(rets[0].value, True):
+                    v = _global_only_fact(corpus, h, t2, p2, depth - 1)
+                    if v is not None and len(facts(rets[0].value, True)) == 1:
+                        # the predicate is true exactly when (t2, p2) holds
+                        return v if pol else (not v)
+    return None
+
+
+def _unguarded_stores(corpus: Corpus, f: FunctionInfo, call: ast.Call, inherited: bool, depth: int = 2) -> list[tuple[FunctionInfo, ast.Call]]:
+    """setattr / validate_field calls reached through ``call`` that no negative global_only test dominates, neither in
+    their own function nor at any call site on the way down from the loop over the front-matter values."""
+    cfg = get_cfg(f)
+    here = inherited
+    for t, pol in cfg.guards(cfg.stmt_of(call)):
+        v = _global_only_fact(corpus, f, t, pol)
+        if v is True:
+            here = True
+        # (a test that holds only for global-only fields does not protect the store)
+    if dotted(call.func) in ("setattr", "validate_field"):
+        return [] if here else [(f, call)]
+    if here or depth <= 0:
+        return []
+    out: list[tuple[FunctionInfo, ast.Call]] = []
+    for h in _package_helpers(corpus, f, call):
+        if h.name == "validate_field":
+            out.append((f, call))
+            continue
+        for c2 in walk_local(h.node):
+            if isinstance(c2, ast.Call) and _stores_config_value(corpus, h, c2, depth - 1):
+                out.extend(_unguarded_stores(corpus, h, c2, False, depth - 1))
+    return out
+
+
 def _r4_global_only(corpus: Corpus, rep: Report) -> None:
     """The slug function is imported from a dotted path and called with every heading text: only the global configuration
     may name it, never a document's own front matter (whose anchors myst-anchors and other documents could not predict)."""
@@ -2295,19 +2341,13 @@ def _r4_global_only(corpus: Corpus, rep: Report) -> None:
         raise Unsupported(f"{mfl.fq}: no setattr/validate_field (direct or in a helper) inside the loop over the file-level values")
     unguarded = []
     for c in applies:
-        gs = cfg.guards(cfg.stmt_of(c))
-        ok = any(("global_only" in unparse(t)) and not pol for t, pol in gs)
-        odd = [t for t, pol in gs if "global_only" in unparse(t) and pol]
-        if odd:
-            raise Unsupported(f"{m.site(odd[0])}: global_only test with unexpected polarity")
-        if not ok:
-            unguarded.append(c)
+        unguarded.extend(_unguarded_stores(corpus, mfl, c, False))
     if unguarded:
-        c = unguarded[0]
+        f_, c = unguarded[0]
         rep.violation(
             "C10.R4",
             k,
-            m.site(c),
+            f_.module.site(c),
             f"`{short(c, 50)}` is reached for every field name of the front matter without a test of the field's global_only flag: `myst: {{{fld}: os.system}}` in a document is "
             "validated (imported) and stored, so the document chooses the function that computes its own anchors",
         )
@@ -3256,6 +3296,7 @@ def mutants(corpus: Corpus):
         gif = find_node(mfl, lambda n: isinstance(n, ast.If) and "global_only" in unparse(n.test))
         if gif is not None:
             out.append(Mutant("c10-revert-4dae2c7-global-only-ignored", "C10.R4", cmn0.rel, splice(cmn0.src, gif.test, "False"), expect="refuses global_only"))
+            out.append(Mutant("c10-global-only-test-inverted", "C10.R4", cmn0.rel, splice(cmn0.src, gif.test, f"not {segment(cmn0.src, gif.test)}"), expect="refuses global_only"))
             # class "a value is stored (directly or through a helper) before the global_only test"
             ind = " " * gif.col_offset
             gseg = segment(cmn0.src, gif)
